@@ -51,7 +51,7 @@ func (m *Model) GetHail(id string, opts ...resource.ReadOption) (*traits.Hail, b
 }
 
 func (m *Model) UpdateHail(hail *traits.Hail, opts ...resource.WriteOption) (*traits.Hail, error) {
-	if hail.Id == "" {
+	if hail.GetId() == "" { // (getter: a request may leave the hail out altogether)
 		return nil, status.Error(codes.InvalidArgument, "missing ID")
 	}
 	msg, err := m.hails.Update(hail.Id, hail, opts...)
